@@ -352,7 +352,11 @@ func runCheck(o checkOpts) int {
 			assumptions = append(assumptions, rep.Key+": "+n)
 		}
 		allOK := true
-		fnProps := rep.Fx.ct.propSet()
+		// untagged obligations (safety sites, frames) belong to the properties named on the function's props line
+		fnProps := map[string]bool{}
+		for _, p := range rep.Fx.ct.Props {
+			fnProps[p] = true
+		}
 		// alternative groups: a group passes when all clauses of one alternative pass
 		altFail := map[string]map[string]bool{} // group -> alternative -> failed
 		altAll := map[string]map[string]bool{}
